@@ -46,6 +46,12 @@ def subdivide(
       Only returned if `return_index`, {index of
       original face : index of new faces}.
     """
+    faces = np.asanyarray(faces)
+    if faces.dtype.kind == "u":
+        # unsigned indices mixed with the signed indices of the
+        # new midpoints would be promoted to float by numpy
+        faces = faces.astype(np.int64)
+
     if face_index is None:
         face_mask = np.ones(len(faces), dtype=bool)
     else:
